@@ -45,6 +45,7 @@ impl<T: RealNumber, M: Matrix<T>> Distance<Vec<T>, T> for Mahalanobis<T, M> {
                 forall|a: T, b: T| #[trigger] a.add_assign_req(b),
                 forall|a: T, b: T| *(#[trigger] a.add_assign_spec(b)) == a.add_spec(b),
                 self.inv(), n == self.sigma.nrows_spec(), z@.len() == n,
+                z@ =~= vec_diff(x@, y@),
                 s == maha_sum(&self.sigmaInv, z@, n as int, j as int),
 //@loop 3
                 invariant
@@ -54,8 +55,6 @@ impl<T: RealNumber, M: Matrix<T>> Distance<Vec<T>, T> for Mahalanobis<T, M> {
                     forall|a: T, b: T| *(#[trigger] a.add_assign_spec(b)) == a.add_spec(b),
                     self.inv(), n == self.sigma.nrows_spec(), z@.len() == n, j < n,
                     s == maha_col(&self.sigmaInv, z@, j as int, i as int, maha_sum(&self.sigmaInv, z@, n as int, j as int)),
-//@before let mut s = T::zero();
-        proof { assert(z@ =~= vec_diff(x@, y@)); }
 //@end
 }
 } // verus!
